@@ -56,6 +56,46 @@ struct Svc {
     log: Rc<RefCell<Vec<String>>>,
     credits: Rc<RefCell<Vec<u64>>>,
     wakers: Rc<RefCell<Vec<Option<Waker>>>>,
+    mid: Mid,
+}
+
+/// Arrivals in the middle of a poll of the server: "when the reply stream of client `a` hands over its `k`-th result
+/// (an item, or its end), these bytes arrive for client `b`" - time passes while the server is busy.
+#[derive(Clone, Default)]
+struct Mid {
+    /// per streaming client: results handed over so far
+    handed: Rc<RefCell<Vec<u64>>>,
+    /// (a, k, b, bytes), not yet fired
+    triggers: Rc<RefCell<Vec<(usize, u64, usize, Vec<u8>)>>>,
+    nets: Rc<RefCell<Vec<NetRef>>>,
+}
+impl Mid {
+    fn handed_over(&self, a: usize) {
+        let k = {
+            let mut h = self.handed.borrow_mut();
+            h[a] += 1;
+            h[a]
+        };
+        let due: Vec<(usize, Vec<u8>)> = {
+            let mut t = self.triggers.borrow_mut();
+            let mut due = vec![];
+            t.retain(|(ta, tk, tb, bytes)| {
+                if *ta == a && *tk == k {
+                    due.push((*tb, bytes.clone()));
+                    false
+                } else {
+                    true
+                }
+            });
+            due
+        };
+        for (b, bytes) in due {
+            let nets = self.nets.borrow();
+            let mut n = nets[b].borrow_mut();
+            n.avail.extend(bytes.iter().copied());
+            n.wake();
+        }
+    }
 }
 
 /// The service's reply stream: hands over its next result (an item, or its end) only while its client has
@@ -65,6 +105,7 @@ struct CStream {
     conn: usize,
     credits: Rc<RefCell<Vec<u64>>>,
     wakers: Rc<RefCell<Vec<Option<Waker>>>>,
+    mid: Mid,
 }
 impl futures_util::Stream for CStream {
     type Item = Reply<Rep>;
@@ -78,6 +119,7 @@ impl futures_util::Stream for CStream {
             }
             cr[conn] -= 1;
         }
+        self.mid.handed_over(conn);
         Poll::Ready(self.items.pop_front())
     }
 }
@@ -113,6 +155,7 @@ impl Service for Svc {
                     conn: (*t / 1000) as usize,
                     credits: self.credits.clone(),
                     wakers: self.wakers.clone(),
+                    mid: self.mid.clone(),
                     items: (0..*n)
                         .map(|i| {
                             let c = match *p {
@@ -206,6 +249,8 @@ pub enum Ev {
     Close(usize),
     ReadErr(usize),
     Produce(usize, u64),
+    /// when client .0's reply stream hands over its .1-th result, the bytes .3 arrive for client .2
+    Trigger(usize, u64, usize, Vec<u8>),
     Poll,
 }
 
@@ -261,11 +306,6 @@ pub fn run_case(c: &Case) -> Obs {
     let log = Rc::new(RefCell::new(vec![]));
     let credits = Rc::new(RefCell::new(c.conns.iter().map(|cs| cs.credit).collect::<Vec<u64>>()));
     let swakers: Rc<RefCell<Vec<Option<Waker>>>> = Rc::new(RefCell::new(c.conns.iter().map(|_| None).collect()));
-    let server = zlink_core::Server::new(
-        L { pending: pending.clone(), waker: lwaker.clone() },
-        Svc { log: log.clone(), credits: credits.clone(), wakers: swakers.clone() },
-    );
-    let mut fut = Box::pin(server.run());
     let glog = Rc::new(RefCell::new(Vec::<usize>::new()));
     let nets: Vec<NetRef> = c
         .conns
@@ -279,6 +319,16 @@ pub fn run_case(c: &Case) -> Obs {
             n
         })
         .collect();
+    let mid = Mid {
+        handed: Rc::new(RefCell::new(vec![0; c.conns.len()])),
+        triggers: Rc::new(RefCell::new(vec![])),
+        nets: Rc::new(RefCell::new(nets.clone())),
+    };
+    let server = zlink_core::Server::new(
+        L { pending: pending.clone(), waker: lwaker.clone() },
+        Svc { log: log.clone(), credits: credits.clone(), wakers: swakers.clone(), mid: mid.clone() },
+    );
+    let mut fut = Box::pin(server.run());
     let mut alive = true;
     let flag = WakeFlag::new();
     for ev in &c.evs {
@@ -312,6 +362,7 @@ pub fn run_case(c: &Case) -> Obs {
                     }
                 }
             }
+            Ev::Trigger(a, k, b, bytes) => mid.triggers.borrow_mut().push((*a, *k, *b, bytes.clone())),
             Ev::Poll => {
                 // wake-driven: an executor polls a task that is scheduled, and again as long as the poll itself
                 // re-schedules it (a future that wakes itself); 10000 such rounds = a task that spins
@@ -367,6 +418,7 @@ pub fn line(c: &Case, obs: &Obs) -> String {
             Ev::Close(i) => s.push_str(&format!(" x{i}")),
             Ev::ReadErr(i) => s.push_str(&format!(" r{i}")),
             Ev::Produce(i, n) => s.push_str(&format!(" k{i}:{n}")),
+            Ev::Trigger(a, k, b, bytes) => s.push_str(&format!(" t{a}:{k}:{b}:{}", enc_bytes(bytes))),
             Ev::Poll => s.push_str(" p"),
         }
     }
@@ -663,6 +715,51 @@ pub fn gen_sv(rng: &mut Rng) -> Case {
     Case { conns, evs, upfront: false, wake_driven: false, family: "SV1".into() }
 }
 
+/// `SV2` - a call that arrives while a reply stream is being forwarded: the streaming clients' results are all available;
+/// each caller's single call arrives *during* the poll, at the moment a stream hands over its k-th item (k >= 1, at least
+/// two items before the stream's last). Judged on the global order of the writes: once the call is there, no streaming
+/// client is written to twice before the caller has been answered.
+pub fn gen_sv2(rng: &mut Rng) -> Case {
+    let nstream = rng.range(1, 2);
+    let ncall = rng.range(1, 2);
+    let n = nstream + ncall;
+    let mut conns = vec![];
+    let mut lens = vec![];
+    for i in 0..n {
+        let descs = if i < nstream {
+            let l = rng.range(4, 8) as u32;
+            lens.push(l);
+            vec![Desc::Sub(l, 0)]
+        } else if rng.chance(1, 4) {
+            vec![Desc::Fail(false)]
+        } else {
+            vec![Desc::Echo(rng.below(1000) as u32, false)]
+        };
+        conns.push(ConnScript { good: true, wfail: None, descs, credit: 0 });
+    }
+    let mut evs = vec![];
+    for i in 0..n {
+        evs.push(Ev::Connect(i));
+    }
+    evs.push(Ev::Poll);
+    for i in 0..nstream {
+        evs.push(Ev::Arrive(i, frames_of(i, &conns[i].descs, 0, 1)));
+    }
+    evs.push(Ev::Poll);
+    evs.push(Ev::Poll);
+    for b in nstream..n {
+        let a = rng.below(nstream);
+        let k = rng.range(1, lens[a] as usize - 2) as u64;
+        evs.push(Ev::Trigger(a, k, b, frames_of(b, &conns[b].descs, 0, 1)));
+    }
+    for i in 0..nstream {
+        evs.push(Ev::Produce(i, 100));
+    }
+    evs.push(Ev::Poll);
+    evs.push(Ev::Poll);
+    Case { conns, evs, upfront: false, wake_driven: false, family: "SV2".into() }
+}
+
 /// `F2` - fairness after a history: 3..5 clients; in phase 1 each sends 0..2 calls (plain, oneway, failing, streaming with
 /// everything available) with polls in between, and one or two of them - not the last accepted - hang up, so that
 /// `swap_remove` and the stream hand-over have reordered the server's lists; the server is polled until idle. In phase 2
@@ -767,13 +864,13 @@ pub fn main(o: &Opts, which: &str) {
             let mut c = if which == "srv-fair" && k % 2 == 0 {
                 if k % 6 == 0 { gen_fh(&mut r2) } else { gen_upfront(&mut r2) }
             } else if (which == "srv-stream" && k % 8 == 5) || (which == "srv-fair" && k % 16 == 7) {
-                gen_sv(&mut r2)
+                if k % 16 == 5 || k % 32 == 7 { gen_sv2(&mut r2) } else { gen_sv(&mut r2) }
             } else {
                 gen_case(&mut r2, &g)
             };
             // two cases in five run under a wake-driven executor (chosen by the case number: the case itself is the
             // one the eager executor would get)
-            c.wake_driven = k % 5 == 1 || k % 5 == 3;
+            c.wake_driven = (k % 5 == 1 || k % 5 == 3) && c.family != "SV2";
             let obs = run_case(&c);
             vec![line(&c, &obs)]
         });
